@@ -33,6 +33,20 @@ pub fn append_frame(app: &dyn Append, tid: u32, seq: u32, len: usize, with_newli
     let msg = message_for(tid, seq, len, with_newline);
     let inv = stamp();
     let r = trap::catch(|| {
+        if tid == crate::frames::LITERAL_TID && !with_newline {
+            macro_rules! lit {
+                ($t:expr) => {
+                    return app.append(&Record::builder().level(log::Level::Info).target("t").args(format_args!($t)).build())
+                };
+            }
+            match seq {
+                0 => lit!("<t7:s0:l0:>"),
+                1 => lit!("<t7:s1:l5:LLLLL>"),
+                2 => lit!("<t7:s2:l40:LLLLLLLLLLLLLLLLLLLLLLLLLLLLLLLLLLLLLLLL>"),
+                3 => lit!("<t7:s3:l100:LLLLLLLLLLLLLLLLLLLLLLLLLLLLLLLLLLLLLLLLLLLLLLLLLLLLLLLLLLLLLLLLLLLLLLLLLLLLLLLLLLLLLLLLLLLLLLLLLLLL>"),
+                _ => {}
+            }
+        }
         app.append(&Record::builder().level(log::Level::Info).target("t").args(format_args!("{}", msg)).build())
     });
     let ret = stamp();
